@@ -55,10 +55,63 @@ def canon(net):
     )
 
 
+# History seam "the library has seen this object before, in another state" (set per run by the worker from the case):
+# build() first materialises a variant of the net (same nodes and wires; one or two gates of another type, one output
+# mark flipped), lets the library look at it (io sets, startpoints, cyclicity, topological order, filter_type, CNF),
+# then turns it into the requested net IN PLACE through the public mutators set_type / set_output.  Everything the
+# property then asks must be answered for the circuit as it is now.
+STALE = {"on": False, "seed": 0, "used": 0}
+
+
+def _build_stale(cgmod, net):
+    import random
+    rng = random.Random(STALE["seed"])
+    nodes = net["nodes"]
+    variant = {n: [t, o] for n, (t, fi, o) in nodes.items()}
+    gl = sorted(n for n, (t, fi, o) in nodes.items() if t in GATES)
+    for n in rng.sample(gl, min(len(gl), rng.randint(1, 2))):
+        t = nodes[n][0]
+        pool = ("buf", "not") if t in ("buf", "not") else MULTI
+        variant[n][0] = rng.choice([x for x in pool if x != t])
+    flippable = sorted(n for n, (t, fi, o) in nodes.items() if t in GATES or t == "input")
+    if flippable:
+        n = rng.choice(flippable)
+        variant[n][1] = not variant[n][1]
+    c = cgmod.Circuit(name=net["name"])
+    g = c.graph
+    for n, (t, fi, o) in nodes.items():
+        g.add_node(n, type=variant[n][0], output=bool(variant[n][1]))
+    for n, (t, fi, o) in nodes.items():
+        for f in fi:
+            g.add_edge(f, n)
+    for inst, (tname, ins, outs) in net["bbs"].items():
+        c.blackboxes[inst] = cgmod.BlackBox(tname, list(ins), list(outs))
+    looks = [c.inputs, c.outputs, c.io, c.startpoints, c.endpoints, c.is_cyclic, c.topo_sort, c.nodes,
+             lambda: c.filter_type(["and", "or", "xor", "nand", "nor", "xnor", "buf", "not"]),
+             lambda: [c.type(n) for n in c.nodes()], lambda: [c.is_output(n) for n in c.nodes()],
+             lambda: cgmod.sat.cnf(c)]
+    for look in looks:
+        try:
+            r = look()
+            if hasattr(r, "__next__"):
+                list(r)
+        except Exception:
+            pass
+    for n, (t, fi, o) in nodes.items():
+        if variant[n][0] != t:
+            c.set_type(n, t)
+        if bool(variant[n][1]) != bool(o):
+            c.set_output(n, bool(o))
+    STALE["used"] += 1
+    return c
+
+
 def build(cgmod, net, sparse=False):
     """Materialise a net as a circuitgraph.Circuit directly on the graph (no construction API).
     sparse: nodes that are not outputs carry no `output` attribute at all, as in circuits made by the fast
     Verilog reader or by Circuit(graph=g) from a hand-built graph (is_output() treats a missing key as False)."""
+    if STALE["on"] and not sparse:
+        return _build_stale(cgmod, net)
     c = cgmod.Circuit(name=net["name"])
     g = c.graph
     for n, (t, fi, o) in net["nodes"].items():
